@@ -166,7 +166,7 @@ def check(w):
         "anon_refused": n_anon_refused, "daemon_protocol_sessions": n_daemon, "handshakes_denied": n_denied, "authorised_command_sessions": n_cmd_auth,
         "rule": "every scenario is one SSH session (golang.org/x/crypto/ssh client) against the real listener: authorized_keys shapes {empty, blank lines, comments only, one key, several keys with comments}, "
                 "client keys {listed/unlisted ed25519, ecdsa, rsa, a certificate merely naming a listed key as CA}, requests {exec, shell, env, subsystem, pty-req, direct-tcpip channel}, "
-                "exec command lines = 6 option bases x 10 extras (-e/--rsh canary, -a, --help, --version, --gokr.modulemap / --gokr.config naming outside paths) x 6 path argument shapes; "
+                "exec command lines = 6 option bases x 14 extras (-e/--rsh canary, -a, --help, --version, --gokr.modulemap / --gokr.config naming outside paths, --daemon / --server as the argument of -e, --rsh, --exclude, --filter) x 6 path argument shapes; "
                 + ("quick: every anonymous command line, every key file x key pair with the canonical and two random lines, every non-exec anonymous request" if quick else "all %d scenarios" % len(allscen))
                 + "; plus a sample driven against the gokr-rsync binary built from the tree (its own namespace/privilege-drop path and maincmd's session closure)",
         "action_coverage": cov, "negative_controls": len(bad), "worker_deaths": summ["crashed"], "confirmed_rejections": confirmed,
